@@ -329,6 +329,51 @@ impl<V> Item<V> {
     //@| entry proof { lemma_refs_ms_empty::<V>(); }
 }
 
+// ---------------------------------------------------------------- explain trace of the tree (C17)
+// The values a trace exposes — those listed under MATCHED trace nodes — are exactly what find returns (the linear scan).
+//@@ rename Trace TreeTrace
+//@@ item src/regex_radix_tree/trace.rs :: struct Trace
+pub open spec fn tt_ms<V>(t: TreeTrace<V>) -> Multiset<V>
+    decreases t
+{ (if t.matched { refs_ms(t.values@) } else { Multiset::<V>::empty() }).add(tt_children(t.children@, t.children@.len() as int)) }
+pub open spec fn tt_children<V>(cs: Seq<TreeTrace<V>>, k: int) -> Multiset<V>
+    decreases cs, k
+{ if k <= 0 || k > cs.len() { Multiset::empty() } else { tt_children(cs, k - 1).add(tt_ms(cs[k - 1])) } }
+pub proof fn lemma_tt_children_prefix<V>(a: Seq<TreeTrace<V>>, b: Seq<TreeTrace<V>>, k: int)
+    requires 0 <= k <= a.len(), k <= b.len(), forall|j: int| 0 <= j < k ==> a[j] == b[j],
+    ensures tt_children(a, k) == tt_children(b, k),
+    decreases k,
+{ if k > 0 { lemma_tt_children_prefix(a, b, k - 1); } }
+impl<V> Leaf<V> {
+    //@@ fn src/regex_radix_tree/trace.rs :: impl <V>Leaf<V> / fn trace -> r
+    //@| requires wf(Item::Leaf(*self)),
+    //@| ensures tt_ms(r) == scan_match(Item::Leaf(*self), haystack@), r.matched == own_match(Item::Leaf(*self), haystack@),
+    //@| outline `self.values.values().collect()` => `outl_values(&self.values)`
+    //@| exit proof { lemma_refs_ms_empty::<V>(); assert(tt_children(vf_ret.children@, 0) =~= Multiset::<V>::empty()); assert(refs_ms(vf_ret.values@).add(Multiset::<V>::empty()) =~= refs_ms(vf_ret.values@)); assert(Multiset::<V>::empty().add(Multiset::<V>::empty()) =~= Multiset::<V>::empty()); }
+}
+impl<V> Node<V> {
+    //@@ fn src/regex_radix_tree/trace.rs :: impl <V>Node<V> / fn trace -> r
+    //@| requires wf(Item::Node(*self)), count(Item::Node(*self)) <= usize::MAX,
+    //@| ensures tt_ms(r) == scan_match(Item::Node(*self), haystack@), r.matched == own_match(Item::Node(*self), haystack@),
+    //@| decreases self, 0int,
+    //@| entry proof { lemma_refs_ms_empty::<V>(); if !MN(self.regex.original@, self.regex.ignore_case, haystack@) { lemma_prune(Item::Node(*self), haystack@); } }
+    //@| forlabel 0: it
+    //@| loop 0: invariant wf(Item::Node(*self)), count(Item::Node(*self)) <= usize::MAX, iter_ref_ok(it.history@, it.index@, it.snapshot@.remaining(), self.children@), children@.len() == it.index@,
+    //@|         tt_children(children@, children@.len() as int) == scan_children(self.children@, haystack@, it.index@),
+    //@| loophead 0: let ghost c0 = children@; proof { assert(*child == self.children@[it.index@ as int]); lemma_count_mono(self.children@, it.index@ as int + 1, self.children@.len() as int); assert(count_children(self.children@, it.index@ as int + 1) == count_children(self.children@, it.index@ as int) + count(self.children@[it.index@ as int])); }
+    //@| looptail 0: proof { assert(children@ =~= c0.push(children@.last())); lemma_tt_children_prefix(children@, c0, c0.len() as int); }
+    //@| exit proof { assert(refs_ms(vf_ret.values@) =~= Multiset::<V>::empty()); assert(Multiset::<V>::empty().add(tt_children(vf_ret.children@, vf_ret.children@.len() as int)) =~= tt_children(vf_ret.children@, vf_ret.children@.len() as int)); if !vf_ret.matched { assert(tt_children(vf_ret.children@, 0) =~= Multiset::<V>::empty()); } }
+}
+impl<V> Item<V> {
+    //@@ fn src/regex_radix_tree/trace.rs :: impl <V>Item<V> / fn trace -> r
+    //@| requires wf(*self), count(*self) <= usize::MAX,
+    //@| ensures tt_ms(r) == scan_match(*self, haystack@),
+    //@| decreases self, 1int,
+    //@| entry proof { lemma_refs_ms_empty::<V>(); }
+    //@| exit proof { if *self is Empty { assert(tt_children(vf_ret.children@, 0) =~= Multiset::<V>::empty()); assert(refs_ms(vf_ret.values@) =~= Multiset::<V>::empty()); assert(Multiset::<V>::empty().add(Multiset::<V>::empty()) =~= Multiset::<V>::empty()); } }
+}
+//@@ unrename Trace
+
 // ---------------------------------------------------------------- cache warm-up (C12)
 // observational identity of two items: same shape, same stored values, same (original, regex, case) everywhere — `compiled` is free
 pub open spec fn same_obs<V>(a: Item<V>, b: Item<V>) -> bool
@@ -1476,6 +1521,18 @@ pub proof fn lemma_same_obs_trans<V>(a: Item<V>, b: Item<V>, c: Item<V>)
         _ => {}
     }
 }
+//@@ rename Trace TreeTrace
+impl<V> RegexTreeMap<V> {
+    //@@ fn src/regex_radix_tree/tree.rs :: impl <V>RegexTreeMap<V> / fn trace -> r
+    //@| requires self.wf(), count(self.root) <= usize::MAX,
+    //@| ensures tt_ms(r) == scan_match(self.root, haystack@),
+}
+impl<V> UniqueRegexTreeMap<V> {
+    //@@ fn src/regex_radix_tree/tree.rs :: impl <V>UniqueRegexTreeMap<V> / fn trace -> r
+    //@| requires self.tree.wf(), count(self.tree.root) <= usize::MAX,
+    //@| ensures tt_ms(r) == scan_match(self.tree.root, haystack@),
+}
+//@@ unrename Trace
 impl<V> UniqueRegexTreeMap<V> {
     //@@ fn src/regex_radix_tree/tree.rs :: impl <V>UniqueRegexTreeMap<V> / fn new -> r
     //@| ensures r.tree.wf(), r.tree.content() == Multiset::<LeafV<V>>::empty(), item_ic(r.tree.root) == ignore_case, good(r.tree.root),
